@@ -31,7 +31,8 @@ class TSetup:
         self.routes = self.gen_routes(r)
 
     def gen_route(self, r, n=None):
-        n = n or r.choice([1, 1, 2, 2, 3])
+        if n is None:
+            n = r.choice([1, 1, 2, 2, 3, 1, 2, 0])      # an allow-list may hold an empty route: nothing validates it
         ds = [r.choice(self.denoms) for _ in range(n + 1)]
         return [{"pool_id": r.choice([1, 2, 7, 1000, 2 ** 40]), "token_in_denom": ds[i], "token_out_denom": ds[i + 1]} for i in range(n)]
 
